@@ -77,6 +77,8 @@ class CapturedPath:
         for subpath_item in reversed(subpath):
           path, prev_edge = self._push_item_on_se_path(path, prev_edge,
               subpath_item.inverted())
+        # the reversed subpath ends with what the subpath, as listed, begins with
+        prev_edge_subpath = item.line._end_item_is_edge(True)
       prev_edge = prev_edge_subpath
     elif isinstance(item.line, gfapy.line.unknown.Unknown):
       raise gfapy.RuntimeError(
@@ -90,6 +92,12 @@ class CapturedPath:
         "Error: items of type {} are not supported\t".format(item.line.__class__.__name__)+
         "Unsupported item: {}".format(item))
     return path, prev_edge
+
+  def _end_item_is_edge(self, first):
+    item = self.items[0 if first else -1]
+    if isinstance(item.line, gfapy.line.group.Ordered):
+      return item.line._end_item_is_edge(first == (item.orient == "+"))
+    return isinstance(item.line, gfapy.line.edge.GFA2)
 
   def _push_first_edge_on_se_path(self, path, items):
     oriented_edge = items[0]
